@@ -377,10 +377,15 @@ pub fn run_stream(case: &StreamCase) -> Option<StreamObs> {
     }
     obs.wakes = cw.0.load(std::sync::atomic::Ordering::SeqCst);
     obs.poll_limit_hit = poll_limit_hit;
-    let _ = crate::util::catch(move || {
-        drop(writer);
-        drop(body);
-    });
+    if obs.steps.iter().any(|s| matches!(s.res, Res::Panic(_))) {
+        // destructors of a writer / body whose lock is poisoned may panic inside a destructor,
+        // which aborts the process: leak them
+        std::mem::forget(writer);
+        std::mem::forget(body);
+    } else {
+        let _ = crate::util::catch(move || drop(writer));
+        let _ = crate::util::catch(move || drop(body));
+    }
     Some(obs)
 }
 
